@@ -430,11 +430,30 @@ def gen_deep_routing(rng: random.Random, tier: str) -> dict:
     return scn
 
 
+def gen_level3_sparse(rng: random.Random, tier: str) -> dict:
+    """Level 3 re-synthesises blocks *between* layout/routing and the final
+    placement: four qudits on a sparse graph, where the layout pass usually
+    returns a non-identity placement."""
+    from dst.workload import compile_inputs as CI
+    inp = CI.gen_circuit(rng, 4, rng.randint(6, 10), barriers=False)
+    model = {'n': 4 + (1 if rng.random() < 0.2 else 0), 'd': 2,
+             'graph': rng.choice(['line', 'star']), 'gateset': 'default'}
+    opts = {'optimization_level': 3, 'max_synthesis_size': 3,
+            'seed': rng.randrange(10 ** 6),
+            'num_workers': rng.randint(2, 4)}
+    scn = compile_scn(rng, inp, model, opts)
+    scn['policy']['preempt_gap'] = 0
+    return scn
+
+
 def gen_c01(rng: random.Random, tier: str) -> dict:
     from dst.workload import compile_inputs as CI
     big = tier == 'thorough'
-    if rng.random() < 0.12:
+    r0 = rng.random()
+    if r0 < 0.12:
         return gen_deep_routing(rng, tier)
+    if r0 < 0.18:
+        return gen_level3_sparse(rng, tier)
     n = rng.choice([1, 2, 2, 3, 3, 4] + ([5, 6] if big else []))
     depth = rng.randint(2, 10 if n <= 3 else 7)
     inp = CI.gen_circuit(rng, n, depth)
